@@ -51,6 +51,9 @@ RwJoinNew == Rw /\ \E pd \in PartnerDescs : LET q == PartnerObj(pd) IN
                 /\ Step("join", {NextId, NextId + 1}, (NextId :> q) @@ ((NextId + 1) :> JoinObj(O, q, NextId + 1)) @@ objs)
                 /\ cur' = NextId + 1
 RwRename  == Rw /\ \E r \in RenChoices(O) : UpdateRenames(cur, r) /\ cur' = cur
+(* overwrite=True with an empty update: every name goes back to its built spelling *)
+RwOverwrite == Rw /\ \E r \in {<< >>} \cup {<<x>> : x \in {<<c, NameRec("", "m8")>> : c \in CurSet(O, O.outs)}} :
+                  OverwriteRenames(cur, r) /\ cur' = cur
 RwScope   == Rw /\ \E sel \in {<<AllSel, AllSel>>, <<AllSel, NoneSel>>, <<NoneSel, AllSel>>} :
                 UpdateScope(cur, "s", sel[1], sel[2], << >>) /\ cur' = cur
 RwUnscope == Rw /\ (\E n \in DOMAIN O.ren : O.ren[n].scope # "") /\ RemoveScope(cur, AllSel, AllSel, << >>) /\ cur' = cur
@@ -74,7 +77,7 @@ MuBound    == Mu /\ \E a \in Live : \E i \in FIdx(objs[a].sem) : Len(objs[a].sem
 MuRenames  == Mu /\ \E a \in Live : objs[a].outs # {}
                  /\ MutateRenames(a, << <<First(CurSet(objs[a], objs[a].outs)), NameRec("", "m9")>> >>)
 
-Next == RwCopy \/ RwPickle \/ RwJoin \/ RwJoinNew \/ RwRename \/ RwScope \/ RwUnscope \/ RwNest \/ RwSimplify
+Next == RwCopy \/ RwPickle \/ RwJoin \/ RwJoinNew \/ RwRename \/ RwOverwrite \/ RwScope \/ RwUnscope \/ RwNest \/ RwSimplify
         \/ RwSplit \/ RwAxis \/ MuDefaults \/ MuBound \/ MuRenames
 Spec == Init /\ [][Next]_mvars
 (* copy and pickle round trip are the same transition of the model: identify their successor states *)
